@@ -263,7 +263,7 @@ def unit_counts(U):
         def replay2(m, meth=meth, col=col):
             import gffutils.feature as F
             fs = []
-            for i, (sq, t) in enumerate([("a", "x"), ("b", "x"), ("a", "y"), ("a", "x")]):
+            for i, (sq, t) in enumerate([("a", "x"), ("b", "x"), ("a", "y"), ("a", "x"), ("A", "X"), ("chr1", "Exon"), ("Chr1", "exon"), ("\u00e9", "\u00c9"), ("\u00c9", "\u00e9"), ("10", "1"), ("9", "01")]):
                 f = F.Feature(seqid=sq, featuretype=t, start=1, end=2, attributes={"ID": ["k%d" % i]})
                 f.id = "k%d" % i
                 fs.append(f)
